@@ -113,7 +113,7 @@ fn check(case: &str) -> Option<String> {
             let oned = |r: Result<lexpr::datum::Datum, parse::Error>| match r { Ok(d) => format!("Ok({})", d.value()), Err(e) => format!("Err({:?})", e.classify()) };
             let b = text.as_bytes();
             let groups: Vec<(&str, Vec<String>)> = if oi == 0 { vec![
-                ("from_str / from_slice / from_reader", vec![one(lexpr::from_str(text)), one(lexpr::from_slice(b)), one(lexpr::from_reader(b))]),
+                ("from_str / from_slice / from_reader / FromStr", vec![one(lexpr::from_str(text)), one(lexpr::from_slice(b)), one(lexpr::from_reader(b)), one(text.parse::<lexpr::Value>())]),
                 ("datum::from_str / from_slice / from_reader", vec![oned(lexpr::datum::from_str(text)), oned(lexpr::datum::from_slice(b)), oned(lexpr::datum::from_reader(b))]),
                 ("Parser::from_str / from_slice / from_reader", vec![show(&all(parse::Parser::from_str(text))), show(&all(parse::Parser::from_slice(b))), show(&all(parse::Parser::from_reader(b)))]),
                 ("from_str_custom(default) / from_str", vec![one(lexpr::from_str_custom(text, Options::default())), one(lexpr::from_str(text))]),
